@@ -50,9 +50,9 @@ static int monitor_cb(int code, size_t line, size_t column, const UChar *text, s
     g_calls++; g_last_answer = a; if (a != 0) g_rejected = 1;
     return a;
 }
-static struct scanner_s *setup(void) {
+static struct scanner_s *setup(const struct in_scan *inp) {
     struct scanner_s *s = &the_scanner;
-    g_in = GET_IN(in_scan);
+    g_in = *inp;
     PRE(g_in.n <= SCN && (g_in.version == 1 || g_in.version == 2));
     INIT_V2_SCANNER(s, (const char *)NULL, (const char *)NULL); s->cif_version = 2;
     if (g_in.version == 1) { SET_V1(s); s->cif_version = 1; }
@@ -63,9 +63,6 @@ static struct scanner_s *setup(void) {
     return s;
 }
 /* one call per input length, so that the buffer limit is a constant on each path (cbmc then folds get_more_chars' buffer-management branches away) */
-#if SCN > 6
-#error "CALL_PER_LENGTH covers lengths 0..6"
-#endif
 #ifdef ONLYLEN
 #define CALL_PER_LENGTH(s, r, f) do { (s)->buffer_limit = ONLYLEN; r = f(s); } while (0)
 #else
@@ -107,7 +104,8 @@ static void check_consumed(const struct scanner_s *s, int r) {
     if (g_calls) REACH("recovered"); else REACH("clean");
 }
 void harness_scan_to_eol_b(void) {
-    struct scanner_s *s = setup();
+    struct in_scan in = GET_IN(in_scan);
+    struct scanner_s *s = setup(&in);
 #ifdef NO_SCAN
     int r = 0;
 #else
@@ -121,7 +119,8 @@ void harness_scan_to_eol_b(void) {
     if (g_rejected) REACH("rejected-eol");
 }
 void harness_scan_to_ws_b(void) {
-    struct scanner_s *s = setup();
+    struct in_scan in = GET_IN(in_scan);
+    struct scanner_s *s = setup(&in);
     int r; CALL_PER_LENGTH(s, r, scan_to_ws);
     check_consumed(s, r);
     if (r == CIF_OK && !g_rejected)
@@ -129,8 +128,41 @@ void harness_scan_to_ws_b(void) {
     if (g_rejected) REACH("rejected-ws");
 }
 void harness_scan_unquoted_b(void) {
-    struct scanner_s *s = setup();
+    struct in_scan in = GET_IN(in_scan);
+    struct scanner_s *s = setup(&in);
     int r; CALL_PER_LENGTH(s, r, scan_unquoted);
     check_consumed(s, r);
     if (g_rejected) REACH("rejected-unq");
 }
+
+/* ---- scan_unquoted: brackets inside / outside a data block or save frame header (C12 "missing whitespace") --------------------------------------
+ * Seven units: five drawn from the letters of data_ / save_ in either case or 'x', then two drawn from brackets, a letter and a blank.  Specification
+ * (CIF 2.0: data_ and save_ headers may contain any non-blank characters; elsewhere an opening bracket after an unquoted value means that the
+ * separating whitespace is missing): at the first opening bracket at offset k - all units before it being ordinary characters - CIF_MISSING_SPACE is
+ * reported iff the token is not a header, i.e. unless k >= 5 and the first five units spell data_ or save_ case-insensitively. */
+#if SCN >= 7
+struct in_hdr { unsigned char sel[7]; int answer; };
+DECL_IN(in_hdr)
+void harness_scan_unquoted_header(void) {
+    struct in_hdr in = GET_IN(in_hdr);
+    static const UChar head[5][5] = { { 'd', 'D', 's', 'S', 'x' }, { 'a', 'A', 'a', 'A', 'x' }, { 't', 'T', 'v', 'V', 'x' }, { 'a', 'A', 'e', 'E', 'x' }, { '_', '_', '_', '_', 'x' } };
+    static const UChar tail[6] = { '[', '{', ']', '}', 'q', ' ' };
+    struct in_scan none; memset(&none, 0, sizeof none); none.n = 0; none.version = 2;
+    struct scanner_s *s = setup(&none);
+    for (int i = 0; i < 5; i++) { PRE(in.sel[i] < 5); the_buf[i] = orig[i] = head[i][in.sel[i]]; }
+    for (int i = 5; i < 7; i++) { PRE(in.sel[i] < 6); the_buf[i] = orig[i] = tail[in.sel[i]]; }
+    g_in.answers[0] = in.answer; s->buffer_limit = 7;
+    static const UChar kw_data[5] = { 'd', 'a', 't', 'a', '_' }, kw_save[5] = { 's', 'a', 'v', 'e', '_' };
+    int is_data = 1, is_save = 1;
+    for (int i = 0; i < 5; i++) { UChar lc = (orig[i] >= 'A' && orig[i] <= 'Z') ? orig[i] + 32 : orig[i]; is_data = is_data && lc == kw_data[i]; is_save = is_save && lc == kw_save[i]; }
+    int r = scan_unquoted(s);
+    int k = in.sel[5] < 2 ? 5 : ((in.sel[5] == 4 && in.sel[6] < 2) ? 6 : -1);    /* offset of the first opening bracket, all units before it ordinary */
+    if (k >= 0) {
+        int header = is_data || is_save;
+        POST(rep_space[k] == !header, "C12 an opening bracket directly after an unquoted value is reported as CIF_MISSING_SPACE unless the token is a data_ / save_ header");
+        if (!header && r == CIF_OK) POST(s->next_char == the_buf + k, "C12 recovery: the value ends before the bracket, which starts the next token");
+        if (header && r == CIF_OK) POST(s->next_char > the_buf + k, "C12 a bracket is part of a block or frame code");
+        if (header) REACH("bracket-in-header"); else REACH("missing-space");
+    } else POST(g_calls == 0 || rep_space[6], "C12 no report for a token without a misplaced bracket");
+}
+#endif
